@@ -91,6 +91,18 @@ def lean_check(fam, gen_file, work):
     directory in front of LEAN_PATH); returns (stage, broken theorems, first message)"""
     lib = os.path.join(work, 'lib')
     srcroot = os.path.join(work, 'src')
+    # Lean resolves a module in the FIRST search-path entry that contains its top-level package,
+    # so the private olean directory must be complete: symlinks to the real build products for
+    # everything except the three modules that are recompiled here (never write through a link).
+    real = os.path.join(LEAN, '.lake', 'build', 'lib', 'lean')
+    mine = {'Logic%s' % fam, 'GenLogic%s' % fam, 'GenLogic'}
+    for dp, dn, fn in os.walk(os.path.join(real, 'SalsaVerif')):
+        rel = os.path.relpath(dp, real)
+        os.makedirs(os.path.join(lib, rel), exist_ok=True)
+        for f in fn:
+            if f.split('.')[0] in mine:
+                continue
+            os.symlink(os.path.join(dp, f), os.path.join(lib, rel, f))
     for d in ('Gen', 'Proofs', 'Props'):
         os.makedirs(os.path.join(lib, 'SalsaVerif', d), exist_ok=True)
         os.makedirs(os.path.join(srcroot, 'SalsaVerif', d), exist_ok=True)
